@@ -521,7 +521,7 @@ impl Engine for SchedSim {
         vec![
             "Interleavings are explored at the granularity of synchronisation operations of the shimmed Arc/Weak/Mutex/AtomicU32 (every such operation is preceded by a scheduling point); data races on unsynchronised memory are invisible here (the Miri tier covers them).".into(),
             "The shim wraps the real std primitives; only the choice of which thread runs next is simulated.".into(),
-            "STRING_CACHE is a std HashMap that is only accessed by key, never iterated, so its hash order cannot reach an observable.".into(),
+            "Under the guard STRING_CACHE is a std HashMap with a fixed-key hasher (hook H2c): if the code iterates it, the order is a function of the insertion history, not of a per-thread random state.".into(),
         ]
     }
 }
